@@ -104,7 +104,7 @@ Print Assumptions C09_stability_table_real.
    did, makes that test reject every accepted table for every non-zero step *)
 From MuxV Require Import Model.Controls Proofs.ShiftP.
 Theorem C09_control_step_on_input : forall (c : cinput R) d root tip s,
-  (match c with CTable tbl => tbl <> [] | _ => True end) ->
+  (match c with CConst _ => True | CTable tbl => tbl <> [] | CFun _ => False end) ->
   input_at (shift_input c d) true s = input_at c true s + d /\
   table_ends_ok root tip (shift_input c d) = table_ends_ok root tip c.
 Proof. intros c d root tip s H. split; [exact (input_at_shift c d s H) | exact (shift_keeps_ends c d root tip)]. Qed.
